@@ -32,9 +32,12 @@ pub enum Sym {
     WvdNaN,
     WvdNeg,
     WvdGap,
+    WvdHalfGap,
+    WvdBHalf,
     WvdHuge,
     WaEqual,
     WaPlus,
+    WaHalfGap,
     WaMinus,
     WaBeforeVideo,
     WaBadSync,
@@ -76,6 +79,9 @@ pub const FULL: &[Sym] = &[
     Sym::WvdNaN,
     Sym::WvdNeg,
     Sym::WvdGap,
+    Sym::WvdHalfGap,
+    Sym::WvdBHalf,
+    Sym::WaHalfGap,
     Sym::WvdHuge,
     Sym::WaMinus,
     Sym::WaBeforeVideo,
@@ -105,6 +111,7 @@ pub const CORE: &[Sym] = &[
     Sym::WaBeforeVideo,
     Sym::WaBadSync,
     Sym::WvdGap,
+    Sym::WvdHalfGap,
     Sym::EvKey,
 ];
 
@@ -265,12 +272,27 @@ pub fn concretize(sym: Sym, step: usize, m: &Contract, fx: &Fixtures) -> Op {
             let t = base + 4294967296.0 / 90000.0 + 3.0 * FRAME;
             wvd(t, t, d, k)
         }
+        Sym::WvdHalfGap => {
+            // a gap that fits the 32-bit sample duration but, repeated for the last sample, makes
+            // the track duration exceed 32 bits (the cumulative rule)
+            let (d, k) = ordinary(m);
+            let t = last_d.unwrap_or(0.0) + (2147483648.0 + 3000.0) / 90000.0;
+            wvd(t, t, d, k)
+        }
+        Sym::WvdBHalf => {
+            // half a frame after the last decode time, presented at its decode time: makes
+            // sample durations unequal in reordered streams
+            let (d, k) = ordinary(m);
+            let t = last_d.map(|x| x + FRAME / 2.0).unwrap_or(next);
+            wvd(t, t, d, k)
+        }
         Sym::WvdHuge => {
             let (d, k) = ordinary(m);
             wvd(1e300, 1e300, d, k)
         }
         Sym::WaEqual => wa(a_base, &fx.audio_ok[i]),
         Sym::WaPlus => wa(a_base + 0.02, &fx.audio_ok[i]),
+        Sym::WaHalfGap => wa(a_base + (2147483648.0 + 1800.0) / 90000.0, &fx.audio_ok[i]),
         Sym::WaMinus => wa((a_base - 0.01).max(0.0), &fx.audio_ok[i]),
         Sym::WaBeforeVideo => wa(first.map(|f| (f - 0.5).max(0.0)).unwrap_or(0.25), &fx.audio_ok[i]),
         Sym::WaBadSync => wa(a_base + 0.5, &fx.bad_sync),
@@ -581,6 +603,7 @@ pub const C06_ALPHA: &[Sym] = &[
     Sym::Fin,
     Sym::WvdPts2,
     Sym::WvdB,
+    Sym::WvdBHalf,
     Sym::WaEqual,
     Sym::WvEqual,
     Sym::WaBadSync,
